@@ -67,6 +67,7 @@ pub fn profile_for(id: &str, tier: Tier, ctx: &Ctx) -> Profile {
             p.max_steps = 2;
             p.p_serial_tag = 5;
             p.p_fail_fast = 8;
+            p.p_wide = 6;
         }
         "C07" => {
             p.p_serial_tag = 30;
@@ -226,6 +227,9 @@ pub fn judge(id: &str, j: &Judged, ctx: &Ctx) -> CaseOut {
     }
     if log.max_delayed_outstanding >= 2 {
         labels.push("two_delayed_retries_outstanding");
+    }
+    if case.scenarios.len() > 64 {
+        labels.push("wide_default_limit_binds");
     }
     if log.quiescent.iter().any(|q| q.action == "sleep-short") {
         labels.push("sleep_short");
